@@ -17,7 +17,9 @@
 // answer" family (tag late-answer-family): 3 t late-answer, 2 t late-close, w-late-produce,
 // w-late-close, w-late-metadata, late-reply-reader in g and in p; and (N >= 28) 3 gse and 3 mode g
 // gen-self-end (tag gen-self-end-family; verdicts OVERLAP:join-before-commit-answered and
-// OVERLAP:close-before-commit-answered, see e2e_gf.go and hold.go).
+// OVERLAP:close-before-commit-answered, see e2e_gf.go and hold.go); and (N >= 46) the "silent
+// step" family (mode p, tag silent-step-family, e2e_ss.go / sfake.go) and the "connect race" family
+// (modes t and w, tag connect-race-family, e2e_cr.go).
 //
 // Timeline tokens (one total order): c<cid>:<f|r|m|t|w>  x<cid>  r<cid>:<msg|nil|eof|cp|ctx|oth>
 // C<k> D<k>  q<api>:<m>  j<m>.  A worker that reported HANG or LEAK exits (code 3) and the parent
@@ -186,7 +188,31 @@ func plan(seed int64, n int) []scen {
 			}
 		}
 	}
+	// the "silent step" family (mode p; kind silent-metadata once on sfake and once on
+	// groupfake) and the "connect race" family (mode t, one mode w), taken from the entries
+	// that are left (all of them for N >= 46)
+	if n >= 20 {
+		type sfam struct{ mode, kind, variant string }
+		want := []sfam{{"p", "silent-metadata", "ss"}, {"t", "setup-late-pool-closed", ""}, {"p", "silent-mid", "ss"}, {"t", "setup-late-pool-closed", "discover"},
+			{"p", "silent-accept", "ss"}, {"t", "setup-late-pool-open", ""}, {"p", "silent-metadata", "gf"}, {"t", "setup-fails-late", ""},
+			{"p", "silent-apiversions", "ss"}, {"t", "setup-late-pool-closed", ""}, {"p", "silent-fetch", "ss"}, {"w", "w-setup-late", ""}}
+		for pass := 0; pass < 2; pass++ {
+			for i := len(l) - 1; i >= front && len(want) > 0; i-- {
+				if l[i].op != "e2e" || reservedKind(l[i].kind) || (pass == 0) != (l[i].mode == "p" || l[i].mode == "g") {
+					continue
+				}
+				l[i].mode, l[i].kind, l[i].variant = want[0].mode, want[0].kind, want[0].variant
+				want = want[1:]
+			}
+		}
+	}
 	return l
+}
+
+// reservedKind: a kind of one of the guaranteed families (never drawn at random).
+func reservedKind(k string) bool {
+	return strings.HasPrefix(k, "late-") || strings.HasPrefix(k, "w-late-") || k == "gen-self-end" ||
+		(strings.HasPrefix(k, "silent-") && k != "silent-ctx") || strings.HasPrefix(k, "setup-") || k == "w-setup-late"
 }
 
 // argPrefix is what the parent prints for a scenario that never produced its line.
@@ -221,6 +247,10 @@ func runScenario(sc scen) result {
 		return runGse(sc)
 	}
 	switch {
+	case sc.variant == "ss":
+		return runSS(sc)
+	case strings.HasPrefix(sc.kind, "setup-") || sc.kind == "w-setup-late":
+		return runCR(sc)
 	case sc.mode == "w":
 		return runW(sc)
 	case sc.mode == "t":
